@@ -316,6 +316,35 @@ def reader_semantics():
                         break
             except Exception as e:
                 fail('bounds', {'bounds': bl, 'exception': repr(e)})
+        # ---- rows without variables: consistent ones are removed (also two
+        # in a row), inconsistent ones are refused
+        for tys, rhs, expect in (
+                (['L', 'L', 'L', 'E'], [1.0, 2.0, 3.0, 0.0], (1, 0)),
+                (['L', 'E', 'E', 'L'], [1.0, 0.0, 0.0, 5.0], (1, 0)),
+                (['L', 'L'], [1.0, -2.0], 'ValueError'),
+                (['L', 'E'], [1.0, 3.0], 'ValueError')):
+            rows = [(tys[0], 'R0')] + [(t, 'Z%d' % i) for i, t in
+                                       enumerate(tys[1:])]
+            open(fn, 'w').write(mpsfile(
+                rows, [('X', 'COST', 1.0), ('X', 'R0', 1.0)],
+                [('R0', rhs[0])] + [('Z%d' % i, v) for i, v in
+                                    enumerate(rhs[1:])], [],
+                [('FR', 'X', None)]))
+            try:
+                q = op()
+                q.fromfile(fn)
+                got = (len(q.inequalities()), len(q.equalities()))
+                if expect == 'ValueError' or got != expect:
+                    fail('empty-rows', {'row types': tys, 'rhs': rhs,
+                                        'expected': expect,
+                                        'rows after fromfile': got})
+            except ValueError as e:
+                if expect != 'ValueError':
+                    fail('empty-rows', {'row types': tys, 'rhs': rhs,
+                                        'exception': repr(e)})
+            except Exception as e:
+                fail('empty-rows', {'row types': tys, 'rhs': rhs,
+                                    'exception': repr(e)})
     finally:
         for f in os.listdir(d):
             os.remove(os.path.join(d, f))
